@@ -14,6 +14,11 @@ Local Arguments u : simpl never.
 Lemma hexdigit_not_dash c : is_hexdigit c = true -> (c =? 45)%N = false.
 Proof. intros H. apply hexdigit_range in H. apply N.eqb_neq. lia. Qed.
 
+Lemma filter_cons_t {A} (f : A -> bool) x l : f x = true -> filter f (x :: l) = x :: filter f l.
+Proof. intros H. simpl. rewrite H. reflexivity. Qed.
+Lemma filter_cons_f {A} (f : A -> bool) x l : f x = false -> filter f (x :: l) = filter f l.
+Proof. intros H. simpl. rewrite H. reflexivity. Qed.
+
 Lemma canonical_filter_length s :
   canonical_uuid_text s = true -> List.length (filter (fun c => negb (c =? 45)%N) s) = 32%nat.
 Proof.
@@ -26,10 +31,11 @@ Proof.
   repeat match goal with
          | D : is_hexdigit ?c = true |- _ => apply hexdigit_not_dash in D
          end.
-  cbn [filter].
   repeat match goal with
-         | D : (?c =? 45)%N = _ |- _ => rewrite D; clear D
+         | D : (?c =? 45)%N = _ |- _ => apply (f_equal negb) in D; cbn [negb] in D
          end.
+  repeat first [ rewrite filter_cons_t by (cbv beta; assumption)
+               | rewrite filter_cons_f by (cbv beta; assumption) ].
   reflexivity.
 Qed.
 
@@ -59,15 +65,16 @@ Proof.
     rewrite Nat2Z.inj_succ, Z.pow_succ_r by lia.
     assert (P : (0 < 16 ^ Z.of_nat (List.length r))%Z) by (apply Z.pow_pos_nonneg; lia).
     eapply Z.lt_le_trans; [exact U|].
-    replace ((acc + 1) * (16 * 16 ^ Z.of_nat (List.length r)))%Z with ((acc * 16 + 16) * 16 ^ Z.of_nat (List.length r))%Z by ring.
-    apply Z.mul_le_mono_nonneg_r; lia.
+    set (P16 := (16 ^ Z.of_nat (List.length r))%Z) in *.
+    assert (E : ((acc + 1) * (16 * P16) = (acc * 16 + 16) * P16)%Z) by ring.
+    rewrite E. apply Z.mul_le_mono_nonneg_r; lia.
 Qed.
 
 Lemma py_uuid_int_of_canonical s :
   canonical_uuid_text s = true -> py_uuid_int s = Ok (hex_val (filter (fun c => negb (c =? 45)%N) s)).
 Proof.
   intros Hc. destruct (canonical_hexdash s Hc) as [Hd HL].
-  assert (Hr : forall c, In c s -> (48 <= c <= 57) \/ (97 <= c <= 102) \/ (65 <= c <= 70) \/ c = 45)%N.
+  assert (Hr : forall c, In c s -> ((48 <= c <= 57) \/ (97 <= c <= 102) \/ (65 <= c <= 70) \/ c = 45)%N).
   { intros c Hin. rewrite forallb_forall in Hd. apply hexdash_range. auto. }
   unfold py_uuid_int.
   assert (N117 : forallb (fun c => negb (117 =? c)%N) s = true).
@@ -99,8 +106,8 @@ Lemma check_uuid_complete vr s v : valid_uuid_text v s = true -> check_uuid vr s
 Proof.
   unfold valid_uuid_text. intros H. apply andb_true_iff in H. destruct H as [Hc H]. cbv zeta in H.
   unfold check_uuid. rewrite (py_uuid_int_of_canonical s Hc). cbn [bind]. rewrite Hc. cbn [negb].
-  rewrite andb_false_r. unfold hex_val in H.
-  set (i := digits_val 16 (filter (fun c => negb (c =? 45)%N) s) 0) in *.
+  rewrite andb_false_r. unfold hex_val in *.
+  set (i := digits_val 16 (filter (fun c => negb (c =? 45)%N) s) 0) in *. cbv beta iota zeta.
   apply andb_true_iff in H. destruct H as [H1 H2]. rewrite H1. destruct v; [rewrite H2|]; reflexivity.
 Qed.
 
@@ -128,6 +135,15 @@ Proof.
     apply N.eqb_eq in H; lia.
 Qed.
 
+Lemma usplit_dot_acc : forall s cur c, In c cur -> exists seg, In seg (usplit_dot s cur) /\ In c seg.
+Proof.
+  induction s as [|x s IH]; intros cur c Hin; cbn [usplit_dot].
+  - exists (rev cur). split; [left; reflexivity|]. apply in_rev. rewrite rev_involutive. exact Hin.
+  - destruct (x =? 46)%N.
+    + exists (rev cur). split; [left; reflexivity|]. apply in_rev. rewrite rev_involutive. exact Hin.
+    + apply IH. right. exact Hin.
+Qed.
+
 Lemma usplit_dot_chars : forall s cur c,
   In c s -> c = 46%N \/ exists seg, In seg (usplit_dot s cur) /\ In c seg.
 Proof.
@@ -136,13 +152,7 @@ Proof.
   - destruct Hin as [-> | Hin]; [left; apply N.eqb_eq; auto|].
     destruct (IH [] c Hin) as [-> | [seg [A B]]]; auto. right. exists seg. split; auto. right. auto.
   - destruct Hin as [-> | Hin].
-    + right. clear IH E. revert cur. induction s as [|y s IHs]; intros cur.
-      * exists (rev (c :: cur)). split; [left; reflexivity|]. apply in_rev. rewrite rev_involutive. left; auto.
-      * cbn [usplit_dot]. destruct (y =? 46)%N.
-        -- exists (rev (c :: cur)). split; [left; reflexivity|]. apply in_rev. rewrite rev_involutive. left; auto.
-        -- destruct (IHs (y :: c :: cur)) as [seg [A B]].
-           (* c stays in the accumulator *)
-           exists seg. auto.
+    + right. apply usplit_dot_acc. left. reflexivity.
     + apply IH. auto.
 Qed.
 
@@ -203,7 +213,7 @@ Section CompLeaf.
     destruct (valid_S sp pok _ _ _ H) as [m ->]. cbn in H. destruct j as [| | | |str| |]; try discriminate.
     unfold valid_ref in H. apply andb_true_iff in H. destruct H as [Hid H]. cbv zeta in H.
     set (t := fst (split_dashdash str)) in *.
-    apply andb_true_iff in H. destruct H as [Hk H]. apply andb_true_iff in H. destruct H as [Hx Hhit].
+    apply andb_true_iff in H. destruct H as [H Hhit]. apply andb_true_iff in H. destruct H as [Hk Hx].
     exists (PJ (JStr str)). split; [|reflexivity].
     cbn [clean_kind]. unfold clean_reference. cbn [py_str bind].
     rewrite (validate_id_none_complete vr _ _ Hid). cbn [bind andb]. fold t.
